@@ -20,7 +20,7 @@ const MI: i128 = 60_000_000_000;
 macro_rules! dt_date_setter {
     ($name:ident, $method:ident, $vty:ty, |$y:ident, $m:ident, $dd:ident, $v:ident| $triple:expr) => {
         pub fn $name(d: i32, n: u64, off: i32, y: i32, m: u32, dd: u32, v: $vty) {
-            assume(n < NPD as u64); assume(off > -86_400); assume(off < 86_400); assume(margin(d));
+            assume(n < NPD as u64); assume(off > -86_400); assume(off < 86_400); assume(in_range(local(d, n, off))); // the receiver's local reading is representable (no margin: the range ends are included)
             let ld = local_day(d, n, off);
             let nod = local_nod(d, n, off);
             assume(consistent(ld, y, m, dd));
@@ -48,7 +48,7 @@ dt_date_setter!(c09_dt_set_month_holds, set_month, u32, |y, m, dd, v| (y, v, dd)
 dt_date_setter!(c09_dt_set_day_holds, set_day, u32, |y, m, dd, v| (y, m, v));
 
 pub fn c09_dt_set_day_of_year_holds(d: i32, n: u64, off: i32, y: i32, m: u32, dd: u32, v: u32) {
-    assume(n < NPD as u64); assume(off > -86_400); assume(off < 86_400); assume(margin(d));
+    assume(n < NPD as u64); assume(off > -86_400); assume(off < 86_400); assume(in_range(local(d, n, off))); // the receiver's local reading is representable (no margin: the range ends are included)
     let ld = local_day(d, n, off);
     let nod = local_nod(d, n, off);
     assume(consistent(ld, y, m, dd));
